@@ -147,7 +147,10 @@ def iter_files(
                 the_dir,
                 subset_files=subset_files,
                 include_submodules=include_submodules,
-                include_meson_subprojects=include_meson_subprojects,
+                # The directory that is walked is nobody's 'subprojects'
+                # directory, whatever it is called itself.
+                include_meson_subprojects=include_meson_subprojects
+                or root == directory,
                 include_reuse_tomls=include_reuse_tomls,
                 vcs_strategy=vcs_strategy,
             ):
